@@ -171,14 +171,13 @@ def samples():
     A = np.array([[0, 1, 1, 0], [0, 0, 0, 1], [0, 0, 0, 1], [0, 0, 0, 0]])
     for I in ({1}, {3}, set()):
         out.append({"function": F + "imec", "inputs": {"A": C.jsonable(A), "I": C.jsonable(I), "check_chain": True},
-                    "library": sorted(O.encode(M) for M in U.imec(A, I)), "oracle": sorted(O.imec_of(4, O.encode(A), I)),
+                    "library": C.lib(U.imec, A, I, render=lambda r: sorted(O.encode(M) for M in r)), "oracle": sorted(O.imec_of(4, O.encode(A), I)),
                     "note": "graph codes: bit i*p+j <=> entry (i,j)"})
     out.append({"function": F + "dag_to_icpdag", "inputs": {"G": C.jsonable(A), "I": C.jsonable({1})},
-                "library": U.dag_to_icpdag(A, {1}).tolist(), "oracle": C.mat(4, O.essential(O.imec_of(4, O.encode(A), {1})))})
+                "library": C.lib(U.dag_to_icpdag, A, {1}, render=lambda r: r.tolist()), "oracle": C.mat(4, O.essential(O.imec_of(4, O.encode(A), {1})))})
     P = O.decode(4, O.essential(O.mec_of(4, O.encode(A))))
-    st, r = C.call(U.pdag_to_icpdag, P, {0})
     out.append({"function": F + "pdag_to_icpdag", "inputs": {"P": C.jsonable(P), "I": C.jsonable({0})},
-                "library": type(r).__name__, "oracle": "ValueError (target 0 has undirected edges)"})
+                "library": C.lib(U.pdag_to_icpdag, P, {0}, render=lambda r: r.tolist()), "oracle": "ValueError (target 0 has undirected edges)"})
     return out
 
 
@@ -223,7 +222,7 @@ def run(tier, seed):
             % (" plus a seeded sample of %d distinct (A, I) pairs at p=5" % n5 if thorough else "",
                "; at p=5 also from every other member of the I-MEC" if thorough else ""))
     return C.report(tally, rule, exhaustive=True, bound="p<=4 all (A,I)%s; chains p<=10" % (", sampled p=5" if thorough else ""),
-                    samples=samples())
+                    samples=C.safe_samples(samples))
 
 
 if __name__ == "__main__":
